@@ -1260,6 +1260,34 @@ def run(ctx):
                   'ask the connection pool for host None, and its assertion error ends the crawl', rf.loc(rstarts[0].stmt))
     else:
         ck.ok('C09-D2', rf.qual, 'robots.txt is requested once (no redirect loop)')
+    # the summaries above say what the connection layer raises; they hold only if its own error handlers cannot fail.  The one call in
+    # them that can is os.strerror(<errno>): an OSError without errno (asyncio's ConnectionResetError('Connection lost'), a bare
+    # ssl.SSLError) has errno None, and os.strerror(None) is a TypeError - raised inside the handler, past every per-URL conversion.
+    # Each such call is control-dependent on a test of the very value it is given
+    n_se = 0
+    for f in repo.funcs.values():
+        if f.module.name != 'wpull.network.connection':
+            continue
+        fpm = None
+        for c in U.calls(f.node):
+            if (dotted(c.func) or '') != 'os.strerror' or not c.args:
+                continue
+            n_se += 1
+            fpm = fpm or U.parents(f.node)
+            arg = norm_text(c.args[0])
+            ok_ = False
+            cur = c
+            for a in U.ancestors(c, fpm):
+                if isinstance(a, ast.If) and any(cur is x or any(cur is y for y in ast.walk(x)) for x in a.body) \
+                        and any(norm_text(y) == arg for y in ast.walk(a.test)):
+                    ok_ = True
+                cur = a
+            ck.expect(ok_, 'C09-D3', f.qual, 'os.strerror(%s) only under a test of %s' % (arg, arg),
+                      'os.strerror(%s) is evaluated for every OSError that reaches the handler: one without an errno (a reset reported by '
+                      'asyncio as ConnectionResetError(\'Connection lost\'), a bare ssl.SSLError) makes it raise TypeError inside the handler and the '
+                      'error leaves the connection layer unconverted' % arg, f.loc(c))
+    if n_se < 1:
+        raise AnalysisError('run_network_operation: no os.strerror call found in its OSError handler')
     # a listing may name a link without saying where it points (MLSD `type=symlink; name`): FileEntry.dest is None then.  The target
     # handed to os.symlink is tested first, or TypeError is among what the handler around the call expects
     ms = repo.func('wpull.processor.ftp:FTPProcessorSession._make_symlink')
